@@ -673,6 +673,9 @@ def replay(data):
 def run(ctx):
     import darsia as d
 
+    _fail = ctx.fail
+    ctx.fail = lambda sig, what, rep: _fail(sig, what, dict(rep, verif_seed=ctx.seed, tier=ctx.tier))  # replays are reproducible
+
     tmp = Path(tempfile.mkdtemp(prefix="darsia-c18-"))
     try:
         t = tabulate(d, tmp)
